@@ -1,8 +1,9 @@
 #!/bin/bash
-# usage: lib/runpar.sh <tier> <streams>  — runs every registered check of the tier in <streams> parallel streams; one summary line each
+# usage: lib/runpar.sh <tier> <streams> [ID...]  — runs every registered check (or the given ones) of the tier in <streams> parallel streams; one summary line each
 cd "$(dirname "$0")/.."
 tier="${1:-thorough}"; n="${2:-3}"
 ids=($(python3 -c "import json; print(' '.join(c['property_id'] for c in json.load(open('MANIFEST.json'))['checks']))"))
+[ $# -gt 2 ] && ids=("${@:3}")
 mkdir -p .work
 for s in $(seq 0 $((n-1))); do
   (
